@@ -60,6 +60,7 @@ type Cfg struct {
 	Sessions   bool // clients use registered sessions and retry
 	ReadMix    int  // per cent of client ops that are reads
 	TimeoutTicks int
+	SyncInterval int // periodic Sync task of on-disk state machines, in ticks
 	LRUSize      int
 	LogBuf       int
 	TanLogSize   int
@@ -187,6 +188,7 @@ func drawCfg(ctx *runner.Ctx) Cfg {
 	c.TanLogSize = p("tanlog", pick(s, 0, 0, 2048, 16384))
 	c.LogBuf = p("logbuf", pick(s, 65536, 64, 4096))
 	c.LRUSize = p("lru", pick(s, 4096, 4096, 2, 3))
+	c.SyncInterval = p("syncinterval", pick(s, 180000, 25, 80))
 	c.ClientRate = p("clientrate", pick(s, 10, 3, 30))
 	c.Pad = p("pad", pick(s, 0, 0, 40, 300))
 	if c.Hosts < 1 {
@@ -485,6 +487,7 @@ func newSim(ctx *runner.Ctx, tweak func(c *Cfg)) *Sim {
 	s.ex.AlwaysInspect = s.cfg.NotifyCommit
 	tan.VerifObsoleteHook = s.hookTanObsolete
 	rsm.LRUMaxSessionCount = uint64(s.cfg.LRUSize)
+	dragonboat.VerifSetSyncTaskInterval(uint64(s.cfg.SyncInterval))
 	if s.cfg.TanLogSize > 0 {
 		tan.VerifMaxLogFileSize = int64(s.cfg.TanLogSize)
 	} else {
@@ -495,6 +498,7 @@ func newSim(ctx *runner.Ctx, tweak func(c *Cfg)) *Sim {
 	s.ex.ParkHook = parkHook
 	transport.VerifHooks.SendBatch = s.hookSendBatch
 	transport.VerifHooks.Async = s.hookAsync
+	dragonboat.VerifYieldHook = func(point string) { s.ex.Yield("sm."+point, 0) }
 	s.net = newNet(s, s.cfg.Hosts)
 	s.initialMembers = map[uint64]dragonboat.Target{}
 	for i := 0; i < s.cfg.Hosts; i++ {
@@ -541,6 +545,7 @@ func (s *Sim) teardown() {
 	transport.VerifHooks.SendBatch = nil
 	transport.VerifHooks.Async = nil
 	tan.VerifObsoleteHook = nil
+	dragonboat.VerifYieldHook = nil
 }
 
 // runTask starts fn as a task of host h.
